@@ -12,6 +12,7 @@ META = {
         "(2) slot search and enable use the same (local) enable bit, the address register of the chosen slot is written, condition/size come from the watchpoint, every tracee is synced, the slot is recorded, disable clears that slot; "
         "(3) a refused watchpoint leaves nothing installed (duplicate-address check dominates enabling; companion rollback on every error exit); "
         "(4) every successful enable/disable result reaches the registry's last_seen_state (reset to None when all are cleared) and new threads get the image on both thread-birth paths."
+        " Also: a scoped watchpoint's frame identity must contain a stack address and the end-of-scope handler must compare activations (2 known findings)."
     ),
     "not_decided": "hardware delivery of data breakpoints, per-thread register contents at runtime, old/new value reporting",
     "assumptions": ["Intel SDM vol.3B 17.2 layout; Linux struct user.u_debugreg at offset 848 on x86-64", "bit_field::BitField set_bit/set_bits/get_bit modelled, not read"],
